@@ -55,7 +55,7 @@ def RULE(tier):
         f"{SHAPES3[tier]}, empty shapes {SHAPES0}, plus every chunking with zero-length chunks (<= 3 chunks, n <= 4) x every axis selection "
         "(None, each int, each tuple; negative spellings on a sub-family) x keepdims x split_every in {None,2,3,16,{0:2},{0:3,1:2}}. Data: "
         "distinct ints (seed-permuted), all 0/1 arrays (ties for arg*/topk/any/all), dtypes f8 f4 i1 u1 bool, and float arrays with EVERY "
-        "placement of NaN/+inf/-inf (1-d n<=3 over {v,nan,inf,-inf}, n=4 over "
+        "placement of NaN/+inf/-inf (arg family: also (2,3),(3,2) with every NaN placement; 1-d n<=3 over {v,nan,inf,-inf}, n=4 over "
         + ("{v,nan,inf,-inf}" if tier == "thorough" else "{v,nan,inf} with at most one inf")
         + (", n=5 over {v,nan,inf}; 2-d (2,2) over {v,nan,inf,-inf}, (2,3) over {v,nan}" if tier == "thorough" else "; 2-d (2,2) over {v,nan}")
         + "). Oracle: value, dtype, lazy shape/chunks and per-block shapes equal NumPy's result (tolerance only for mean/var/std/moment/"
@@ -239,10 +239,27 @@ def gen_arg(op, tier):
             yield ("arg", op, shp, ch, dk, ax, False, None)
 
 
+def nan_lane_configs(tier):
+    """2-d arrays with EVERY NaN placement whose blocks can hold several lanes of >= 2 cells along either axis: a block may then contain
+    an all-NaN lane next to a partly-NaN one while no lane of the whole array is all-NaN (the per-block fallbacks of nanarg*)"""
+    out = []
+    have = {c[0] for c in pat_configs(tier) if len(c[0]) == 2 and set(c[2][1]) <= set("vn")}
+    for shp in [(2, 3), (3, 2)]:
+        if shp in have and tier == "thorough":
+            continue
+        for p in itertools.product("vn", repeat=shp[0] * shp[1]):
+            for ch in all_chunkings(shp):
+                out.append((shp, ch, ("pat", "".join(p))))
+    return out
+
+
 def gen_argf(op, tier):
-    for shp, ch, dk in pat_configs(tier):
-        for ax in [None] if len(shp) == 1 else [None, 0, 1]:
-            for se in se_list(ch, ax, full=False)[: (2 if len(ch[0]) >= 3 else 1)]:
+    lanes = nan_lane_configs(tier)
+    for i, (shp, ch, dk) in enumerate(pat_configs(tier) + lanes):
+        islane = i >= len(pat_configs(tier))
+        for ax in [None] if len(shp) == 1 else ([0, 1] if islane and tier == "quick" else [None, 0, 1]):
+            nb = nblocks_on(ch, norm_axes(len(shp), ax))
+            for se in [None, 2] if nb >= 3 else [None]:
                 yield ("arg", op, shp, ch, dk, ax, False, se)
 
 
@@ -264,7 +281,7 @@ def gen_cum(op, tier):
 
 
 def gen_topk(op, tier):
-    cfgs = int_configs(tier) + bits_configs(tier, nmax1=4, shapes2=((2, 2),)) + zero_configs(tier)
+    cfgs = int_configs(tier) + bits_configs(tier, nmax1=3 if tier == "quick" else 4, shapes2=((2, 2),)) + zero_configs(tier)
     cfgs += [c for c in pat_configs(tier, small=True) if len(c[0]) == 1 and c[0][0] <= 3]
     cfgs += [c for c in dtype_configs(tier) if c[0] == (4,)]
     for shp, ch, dk in cfgs:
